@@ -229,7 +229,9 @@ func (r *grammarOptimizer) optimizeRules(exprs []Expression) []Expression {
 func (r *grammarOptimizer) optimizeRule(expr Expression) Expression {
 	// Optimize RuleRefExpr
 	if ruleRef, ok := expr.(*RuleRefExpr); ok {
-		if _, ok := r.ruleUsesRules[ruleRef.Name.Val]; !ok {
+		_, usesRules := r.ruleUsesRules[ruleRef.Name.Val]
+		// a reference to an undefined rule is left alone (it is reported when the parser runs)
+		if rule, defined := r.rules[ruleRef.Name.Val]; defined && rule != nil && !usesRules {
 			r.optimized = true
 			delete(r.ruleUsedByRules[ruleRef.Name.Val], r.rule)
 			if len(r.ruleUsedByRules[ruleRef.Name.Val]) == 0 {
@@ -309,6 +311,13 @@ func cloneExpr(expr Expression) Expression {
 			Expr:  cloneExpr(expr.Expr),
 			Label: expr.Label,
 			p:     expr.p,
+		}
+	case *RecoveryExpr:
+		return &RecoveryExpr{
+			Expr:        cloneExpr(expr.Expr),
+			RecoverExpr: cloneExpr(expr.RecoverExpr),
+			Labels:      append([]FailureLabel{}, expr.Labels...),
+			p:           expr.p,
 		}
 	case *NotExpr:
 		return &NotExpr{
